@@ -1,10 +1,19 @@
 (* Property C05 - only well-formed blocks can extend any chain the node keeps.
    The property's clause list is Spec/WellFormed.v (one boolean per clause).  Statements only. *)
 From Virel Require Import Lib.Config Lib.U64 Lib.AMap Model.Ledger Model.Node Spec.WellFormed
-  Proofs.NodeBasics Proofs.WellFormedProof Gen.Params.
+  Proofs.NodeBasics Proofs.WellFormedProof Proofs.ForkChoice Proofs.WellFormed2 Gen.Params.
+From Virel Require Model.Des Model.CodecBlock Proofs.DesVal Proofs.WellFormedDecoder.
 Open Scope N_scope.
 
-(* the full statement: every accepted new block satisfies every clause *)
+(* the full statement: every accepted new block satisfies every clause (all 14).
+   It is FALSE of the code.  Clauses refuted by an accepted block (theorems below):
+      7  ancestor list = real predecessors    C05_ancestors_refuted   (open finding R13a)
+      9  total transaction size               C05_size_refuted        (open finding R13b)
+     10  at most max_side_blocks side blocks  C05_nsides_refuted      (validation never counts them; the wire decoder
+                                                                       does: C05_nsides_decoder)
+     11  side blocks pairwise distinct        C05_distinct_440_refuted, at height 440 only: the code skips its duplicate
+                                              tests at that height (every network); proved for every other height.
+   Every other clause (1-6, 8, 12, 13, 14) is proved: C05_accepted_wellformed. *)
 Definition C05_full : Prop := forall cfg genesis_addr team_key n b now n' amb,
   deliver cfg genesis_addr team_key n b now = (n', Accepted, amb) ->
   get_block n (b_hash b) = None -> wellformed cfg n b now = 0.
@@ -13,24 +22,74 @@ Definition C05_full : Prop := forall cfg genesis_addr team_key n b now n' amb,
    was not stored before, and satisfies: proof of work at its declared difficulty outside the checkpointed range (1),
    difficulty = retarget of its parent (2), height = parent + 1 (3), parent time <= time <= now + future limit (4),
    cumulative difficulty = parent's + its own contribution (5), version required at its height (6), no merge-mining
-   duplicates (8), every side block carries at least 2/3 of the block's work (14), difficulty >= minimum.
-   Hypotheses: the clock, the difficulty and the parent's height are far from the uint64/uint128 limits.
-   MISSING for the full statement: clause 7 is false of the code (refuted below: open finding R13a); clause 9 (total
-   transaction size) is not enforced by the code either; clause 10 (at most two side blocks) is enforced by the wire
-   decoder, not by validation; clauses 11-13 (side blocks distinct, unreferenced, sharing an ancestor) are covered by
-   the correspondence check only. *)
-Theorem C05_accepted_wellformed_partial : forall cfg genesis_addr team_key n b now n' amb,
+   duplicates (8), side blocks pairwise distinct (11; not at height 440, see above), no side block is the commitment of
+   or listed by one of the three predecessors (12), every side block shares an ancestor with the block (13), every side
+   block carries at least 2/3 of the block's work (14), difficulty >= minimum.
+   Hypotheses: the clock, the difficulty and the parent's height are far from the uint64/uint128 limits; for clause 11
+   the two symbolic identity classes of the side blocks are coherent ([commits_coherent]: equal under Commitment.Equals
+   implies equal (BaseHash, Nonce, NonceExtra), which holds of real commitments because Equals compares a superset of
+   those fields; C05_distinct_needs_coherence shows the model needs it said).
+   MISSING for the full statement: clauses 7, 9, 10 (false of the code, refuted below). *)
+Theorem C05_accepted_wellformed : forall cfg genesis_addr team_key n b now n' amb,
   deliver cfg genesis_addr team_key n b now = (n', Accepted, amb) ->
   now + future_time_limit cfg * 1000 < two64 -> b_diff b * 2 < two128 ->
   (forall p, get_block n (prev_hash b) = Some p -> b_height p + 1 < two64) ->
   exists p, get_block n (prev_hash b) = Some p /\ get_block n (b_hash b) = None /\
     wf_pow cfg b = true /\ wf_diff cfg n p b = true /\ wf_height p b = true /\ wf_time cfg p b now = true /\
-    wf_cd p b = true /\ wf_version cfg b = true /\ wf_chains cfg b = true /\ wf_sidework cfg b = true /\
+    wf_cd p b = true /\ wf_version cfg b = true /\ wf_chains cfg b = true /\
+    (b_height b <> 440 -> commits_coherent (b_sides b) -> wf_distinct b = true) /\
+    wf_unref n b = true /\ wf_shared b = true /\ wf_sidework cfg b = true /\
     min_difficulty cfg <= b_diff b.
-Proof. exact accepted_wellformed_core. Qed.
-Print Assumptions C05_accepted_wellformed_partial.
+Proof. exact accepted_wellformed. Qed.
+Print Assumptions C05_accepted_wellformed.
 
-(* the clause "ancestor list equal to the hashes of its actual predecessors" does NOT hold of the code: witness *)
+(* the same through the specification's clause list: the only clauses an accepted new block can fail are 7, 9 and 10 *)
+Theorem C05_accepted_wellformed_code : forall cfg genesis_addr team_key n b now n' amb,
+  deliver cfg genesis_addr team_key n b now = (n', Accepted, amb) ->
+  now + future_time_limit cfg * 1000 < two64 -> b_diff b * 2 < two128 ->
+  (forall p, get_block n (prev_hash b) = Some p -> b_height p + 1 < two64) ->
+  b_height b <> 440 -> commits_coherent (b_sides b) ->
+  let c := wellformed cfg n b now in c = 0 \/ c = 7 \/ c = 9 \/ c = 10.
+Proof. exact accepted_wellformed_code. Qed.
+Print Assumptions C05_accepted_wellformed_code.
+
+(* ... and a block that has them is well formed: C05_full with the three unenforced clauses as hypotheses *)
+Theorem C05_full_modulo_7_9_10 : forall cfg genesis_addr team_key n b now n' amb p,
+  deliver cfg genesis_addr team_key n b now = (n', Accepted, amb) ->
+  now + future_time_limit cfg * 1000 < two64 -> b_diff b * 2 < two128 ->
+  (forall p, get_block n (prev_hash b) = Some p -> b_height p + 1 < two64) ->
+  b_height b <> 440 -> commits_coherent (b_sides b) ->
+  get_block n (prev_hash b) = Some p -> wf_anc p b = true -> wf_size cfg b = true -> wf_nsides cfg b = true ->
+  wellformed cfg n b now = 0.
+Proof. exact accepted_wellformed_modulo. Qed.
+Print Assumptions C05_full_modulo_7_9_10.
+
+(* the single side-block clauses, without the numeric hypotheses *)
+Theorem C05_side_blocks_unreferenced : forall cfg genesis_addr team_key n b now n' amb,
+  deliver cfg genesis_addr team_key n b now = (n', Accepted, amb) -> wf_unref n b = true.
+Proof. exact accepted_unref. Qed.
+Print Assumptions C05_side_blocks_unreferenced.
+
+Theorem C05_side_blocks_share_ancestor : forall cfg genesis_addr team_key n b now n' amb,
+  deliver cfg genesis_addr team_key n b now = (n', Accepted, amb) -> wf_shared b = true.
+Proof. exact accepted_shared. Qed.
+Print Assumptions C05_side_blocks_share_ancestor.
+
+Theorem C05_side_blocks_distinct : forall cfg genesis_addr team_key n b now n' amb,
+  deliver cfg genesis_addr team_key n b now = (n', Accepted, amb) ->
+  b_height b <> 440 -> commits_coherent (b_sides b) -> wf_distinct b = true.
+Proof. exact accepted_distinct. Qed.
+Print Assumptions C05_side_blocks_distinct.
+
+(* the code's own duplicate rule (pairwise different (BaseHash, Nonce, NonceExtra)), no coherence needed *)
+Theorem C05_side_blocks_dup_free : forall cfg genesis_addr team_key n b now n' amb,
+  deliver cfg genesis_addr team_key n b now = (n', Accepted, amb) ->
+  b_height b <> 440 -> sides_dup_free (b_sides b) = true.
+Proof. exact accepted_dup_free. Qed.
+Print Assumptions C05_side_blocks_dup_free.
+
+(* ---------------- refuted clauses: accepted blocks on reachable nodes of the verification network ---------------- *)
+(* clause 7, "ancestor list equal to the hashes of its actual predecessors" (open finding R13a) *)
 Theorem C05_ancestors_refuted :
   exists n b now n' amb p,
     deliver cfg_verifnet 7 0 n b now = (n', Accepted, amb) /\ get_block n (prev_hash b) = Some p /\
@@ -38,8 +97,69 @@ Theorem C05_ancestors_refuted :
 Proof. exact accepted_wellformed_anc_refuted. Qed.
 Print Assumptions C05_ancestors_refuted.
 
+(* clause 9, total virtual transaction size (open finding R13b): block [w2_big] of height 1, 76 transfers of 32 outputs,
+   65892 > 65536; all other clauses hold *)
+Theorem C05_size_refuted :
+  exists n b now n' amb,
+    node0 cfg_verifnet 7 wit_g = Ok n /\
+    deliver cfg_verifnet 7 0 n b now = (n', Accepted, amb) /\ get_block n (b_hash b) = None /\
+    tx_sizes cfg_verifnet b = 65892 /\ max_block_size cfg_verifnet = 65536 /\
+    wf_size cfg_verifnet b = false /\ wellformed cfg_verifnet n b now = 9 /\
+    wf_nsides cfg_verifnet b = true /\ wf_distinct b = true /\ wf_unref n b = true /\ wf_shared b = true /\
+    wf_sidework cfg_verifnet b = true.
+Proof. exact accepted_size_refuted. Qed.
+Print Assumptions C05_size_refuted.
+
+(* clause 10, number of side blocks: block [w2_three_sides] of height 2 with three side blocks; all other clauses hold *)
+Theorem C05_nsides_refuted :
+  exists n b now n' amb,
+    node0 cfg_verifnet 7 wit_g = Ok w2_n0 /\ n = run cfg_verifnet 7 0 w2_n0 [(wit_b1, 5000)] /\
+    deliver cfg_verifnet 7 0 n b now = (n', Accepted, amb) /\ get_block n (b_hash b) = None /\
+    length (b_sides b) = 3%nat /\ max_side_blocks cfg_verifnet = 2 /\
+    wf_nsides cfg_verifnet b = false /\ wellformed cfg_verifnet n b now = 10 /\
+    wf_distinct b = true /\ wf_unref n b = true /\ wf_shared b = true /\ wf_sidework cfg_verifnet b = true.
+Proof. exact accepted_nsides_refuted. Qed.
+Print Assumptions C05_nsides_refuted.
+
+(* ... the bound is the wire decoder's: whatever Block.DeserializeFull returns on a byte string has at most
+   max_side_blocks side blocks *)
+Theorem C05_nsides_decoder : forall cfg, CodecBlock.cfg_ok_block cfg = true -> forall bs b txs s',
+  DesVal.bytes bs -> Des.blen bs < two64 ->
+  Des.run (CodecBlock.dec_full_block cfg) bs = Des.MOk (b, txs) s' ->
+  Des.blen (CodecBlock.hd_side (CodecBlock.bl_header b)) <= max_side_blocks cfg.
+Proof. exact WellFormedDecoder.decoded_full_block_nsides. Qed.
+Print Assumptions C05_nsides_decoder.
+
+(* clause 11 at the exempt height: after 439 blocks, block [w2_twice 440] lists one side block twice and is accepted
+   (on the verification network: the exemption is not tied to mainnet); one height lower it is refused *)
+Theorem C05_distinct_440_refuted :
+  exists n b now n' amb,
+    node0 cfg_verifnet 7 wit_g = Ok w2_n0 /\ n = run cfg_verifnet 7 0 w2_n0 (w2_chain 439) /\
+    deliver cfg_verifnet 7 0 n b now = (n', Accepted, amb) /\ get_block n (b_hash b) = None /\
+    b_height b = 440 /\ commits_coherent (b_sides b) /\
+    wf_distinct b = false /\ sides_dup_free (b_sides b) = false /\ wellformed cfg_verifnet n b now = 11 /\
+    snd (fst (deliver cfg_verifnet 7 0 (run cfg_verifnet 7 0 w2_n0 (w2_chain 438)) (w2_twice 439) now)) = Rejected 607.
+Proof. exact accepted_distinct_440_refuted. Qed.
+Print Assumptions C05_distinct_440_refuted.
+
+(* the coherence hypothesis of clause 11 cannot be dropped in the symbolic model (model artefact, not a code finding) *)
+Theorem C05_distinct_needs_coherence :
+  exists n b now n' amb,
+    deliver cfg_verifnet 7 0 n b now = (n', Accepted, amb) /\ b_height b <> 440 /\
+    ~ commits_coherent (b_sides b) /\ wf_distinct b = false.
+Proof. exact accepted_distinct_needs_coherence. Qed.
+Print Assumptions C05_distinct_needs_coherence.
+
 (* a block that fails any rule is rejected and leaves no trace: the step returns the node it was given *)
 Theorem C05_rejected_no_trace : forall cfg genesis_addr team_key n b now n' c amb,
   deliver cfg genesis_addr team_key n b now = (n', Rejected c, amb) -> n' = n.
 Proof. exact deliver_rejected_unchanged. Qed.
 Print Assumptions C05_rejected_no_trace.
+
+(* non-vacuity of the decoder statement's side condition *)
+Theorem C05_cfg_ok_block_mainnet : CodecBlock.cfg_ok_block cfg_mainnet = true. Proof. vm_compute. reflexivity. Qed.
+Print Assumptions C05_cfg_ok_block_mainnet.
+Theorem C05_cfg_ok_block_testnet : CodecBlock.cfg_ok_block cfg_testnet = true. Proof. vm_compute. reflexivity. Qed.
+Print Assumptions C05_cfg_ok_block_testnet.
+Theorem C05_cfg_ok_block_verifnet : CodecBlock.cfg_ok_block cfg_verifnet = true. Proof. vm_compute. reflexivity. Qed.
+Print Assumptions C05_cfg_ok_block_verifnet.
